@@ -204,7 +204,7 @@ GoV(t, x) == [k |-> "go", t |-> t, x |-> x]
 FwdScalars ==
   CASE Level = "full" ->
          {GoV("u64", 0), GoV("u64", 1), GoV("u64", 7), GoV("i64", 0), GoV("i64", -1), GoV("i64", -7), GoV("i64", 7),
-          GoV("f64", "f1"), GoV("f64", "f2"), GoV("f64", "f3"), GoV("f64", "f5"), GoV("f64", "f6"), GoV("f64", "f7"),
+          GoV("f64", "f1"), GoV("f64", "f2"), GoV("f64", "f3"), GoV("f64", "f5"), GoV("f64", "f6"), GoV("f64", "f7"), GoV("f64", "f8"),
           GoV("bool", TRUE), GoV("bool", FALSE), GoV("nil", 0),
           GoV("str", "s1"), GoV("str", "s2"), GoV("str", "ts")}
     [] OTHER ->
